@@ -59,7 +59,7 @@ inductive Raised
   | intervalUnset        -- RecurringTask.install_task: "interval unset, ..."
   | intervalNotPositive  -- RecurringTask.install_task: "interval must be greater than zero"
   | noTaskManager        -- _Task.install_task(delta=…) before a manager exists: "no task manager"
-  | notInList            -- suspend_task before a manager exists: list.remove → ValueError
+  | notInList            -- (pre-fix) suspend_task before a manager exists: list.remove → ValueError
   | noManagerAttr        -- resume_task before a manager exists: None.resume_task → AttributeError
 deriving DecidableEq, Repr, Inhabited
 
@@ -445,16 +445,17 @@ omit [Pump] in
 
   Tasks may be installed before any `TaskManager` has been created (at import
   time, say): `task._task_manager` is `None` and `_Task.install_task` only sets
-  `taskTime` and APPENDS the task to `task._unscheduled_tasks` — once per call,
-  so a task installed twice is listed twice; `suspend_task` removes the FIRST
-  occurrence (`list.remove`, ValueError if there is none).  `TaskManager.__init__`
-  then replays the list in order with `task.install_task()`, i.e. at each
-  task's CURRENT `taskTime`: a task listed twice is installed at its last time
-  and re-installed (moved behind everything replayed in between) when its second
-  entry comes up — which is what makes a pre-manager re-install behave like a
-  re-install.  (One suspend of a task listed twice leaves the other entry
-  behind: the task is scheduled when the manager appears.  Transcribed as it is;
-  see notes/C14.md.)  The list is never emptied; nothing reads it again. -/
+  `taskTime` and lists the task in `task._unscheduled_tasks` — ONCE: a task that
+  is listed already is moved to the end (tree after
+  fixes/C14-premanager-suspend.patch; before it the task was appended once per
+  call and one `suspend_task` left the other entry behind, so a task suspended
+  after its last install was armed — and fired — when the manager appeared).
+  `suspend_task` takes the task off the list; a task that is not listed is left
+  alone, as the manager does.  `TaskManager.__init__` then replays the list in
+  order with `task.install_task()`, i.e. at each task's CURRENT `taskTime`: a
+  pre-manager re-install moves the task behind everything installed in the
+  meantime, exactly like a re-install with a manager.  The list is never
+  emptied; nothing reads it again. -/
 
 omit [Pump] in
 /-- a process without a task manager: the task attributes are those of `w.tm`
@@ -480,20 +481,20 @@ omit [Pump] in
 def Pre.step (p : Pre) : PreOp → Pre
   | .installAt tid t =>
     { p with w := { p.w with tm := { p.w.tm with ttime := upd p.w.tm.ttime tid (some t) } },
-             unsched := p.unsched ++ [tid] }
+             unsched := p.unsched.erase tid ++ [tid] }
   | .installAfter _ _ => p.raise .noTaskManager
   | .installBare tid =>
     match p.w.tm.ttime tid with
     | none => p.raise .scheduleMissing
-    | some _ => { p with unsched := p.unsched ++ [tid] }
+    | some _ => { p with unsched := p.unsched.erase tid ++ [tid] }
   | .installRec tid iv off =>
     let tm := p.w.tm.setRecurring tid iv off
     let p := { p with w := { p.w with tm := tm } }
     match tm.ival tid with
     | none => p.raise .intervalUnset
-    | some i => if i = 0 then p.raise .intervalNotPositive else { p with unsched := p.unsched ++ [tid] }
-  | .suspend tid =>
-    if tid ∈ p.unsched then { p with unsched := p.unsched.erase tid } else p.raise .notInList
+    | some i =>
+      if i = 0 then p.raise .intervalNotPositive else { p with unsched := p.unsched.erase tid ++ [tid] }
+  | .suspend tid => { p with unsched := p.unsched.erase tid }
   | .resume _ => p.raise .noManagerAttr
   | .defer f => { p with w := { p.w with queue := p.w.queue ++ [f], subs := p.w.subs ++ [f.id] } }
   | .tick d => { p with w := { p.w with now := p.w.now + d } }
